@@ -49,3 +49,13 @@ CHECKS['C12'] = dict(level='proof',
         'Orthogonality/anti-commutativity of cross follow mathematically from the determinant formula.',
    technique='abstract interpretation of instantiated LLVM IR into rational normal forms; decision-table comparison; NaN-propagation guard-dominance rule')
 NOT_APPLICABLE.pop('C12', None)
+
+CHECKS['C16'] = dict(level='proof',
+   text='Compile-fail witnesses: ~6000 static_assert facts per configuration (sizeof, alignof, offsetof of every named member in all three letter sets, column stride, quaternion '
+        'member order, length() value and type, trivially-copyable, col/row/value types, the gtc/type_precision / type_aligned / core typedef families) over lengths 1-4 x shapes x 13 element '
+        'types x packed/aligned qualifiers, compiled under default, SWIZZLE, XYZW_ONLY, SIZE_T_LENGTH, QUAT_DATA_WXYZ, CTOR_INIT, INTRINSICS at each ISA level and (DEFAULT_)ALIGNED_GENTYPES; '
+        'plus LaneFlow kernels proving that operator[], value_ptr(x)[k] and make_vec/make_mat/make_quat address exactly the lane the facts establish and that make_*(value_ptr(x)) is the identity.',
+   note='Exhaustive over the instantiation lattice named in the property for the configurations constructible on this toolchain; aligned gentypes without intrinsics cannot be configured with '
+        'gcc/clang on Linux and are analysed together with INTRINSICS. Trusted: clang 14 constant evaluation (same Itanium ABI as the baseline g++).',
+   technique='compile-fail witnesses (static_assert/offsetof/decltype TUs per configuration) + bit-provenance analysis of accessor kernels')
+NOT_APPLICABLE.pop('C16', None)
